@@ -18,6 +18,7 @@ import (
 	"errors"
 	"fmt"
 	"net"
+	"reflect"
 	"sync"
 	"time"
 
@@ -53,7 +54,11 @@ type Retryer struct {
 	maxAttempts uint32
 	counts      map[string]uint32 // ip address ---> retried count
 	checkFunc   RecoveryCheckFunc
-	mtx         sync.Mutex
+	// epoch numbers the reconnection schedule in counts: the rule manager starts a new one
+	// (voidRetrySchedule) when the rule of the resource is removed or replaced by one with other recovery
+	// parameters or other breakers. Attempts scheduled under an earlier epoch are void.
+	epoch uint64
+	mtx   sync.Mutex
 }
 
 func getRetryerOfResource(resource string) *Retryer {
@@ -87,6 +92,35 @@ func getRetryerOfResource(resource string) *Retryer {
 	return retryer
 }
 
+// voidRetrySchedule is called by the rule manager after it has removed the rule of a resource or replaced it by
+// one under which the pending reconnection attempts no longer hold (see sameRecovery). The attempts re-arm
+// themselves for as long as the node does not answer: those of a rule that was replaced by one with passive
+// recovery, or removed, went on calling the check function of the rule that was gone for ever, and a node it
+// found healthy had its breaker under the rule in force closed without any request.
+func voidRetrySchedule(resource string) {
+	retryerMutex.Lock()
+	retryer := retryers[resource]
+	retryerMutex.Unlock()
+	if retryer == nil {
+		return
+	}
+	retryer.mtx.Lock()
+	retryer.epoch++
+	retryer.counts = make(map[string]uint32)
+	retryer.mtx.Unlock()
+}
+
+// sameRecovery reports whether the reconnection schedule made under rule a still holds under rule b.
+func sameRecovery(a, b *Rule) bool {
+	if a == nil || b == nil {
+		return false
+	}
+	return a.EnableActiveRecovery == b.EnableActiveRecovery && a.RecoveryIntervalMs == b.RecoveryIntervalMs &&
+		a.MaxRecoveryAttempts == b.MaxRecoveryAttempts &&
+		reflect.ValueOf(a.RecoveryCheckFunc).Pointer() == reflect.ValueOf(b.RecoveryCheckFunc).Pointer() &&
+		reflect.DeepEqual(a.Rule, b.Rule)
+}
+
 func isPortOpen(address string) bool {
 	conn, err := net.DialTimeout("tcp", address, 5*time.Second)
 	if err == nil {
@@ -104,28 +138,38 @@ func (r *Retryer) scheduleNodes(nodes []string) {
 			r.counts[node] = 1
 			logging.Info("[Outlier Retryer] Reconnecting...", "node", node)
 			nodeCopy := node // Copy values to correctly capture the closure for node.
+			epoch := r.epoch
 			time.AfterFunc(r.interval, func() {
-				r.connectNode(nodeCopy)
+				r.connectNode(nodeCopy, epoch)
 			})
 		}
 	}
 }
 
-func (r *Retryer) connectNode(node string) {
+func (r *Retryer) connectNode(node string, epoch uint64) {
 	r.mtx.Lock()
 	checkFunc := r.checkFunc
+	void := epoch != r.epoch
 	r.mtx.Unlock()
+	if void {
+		return
+	}
 	start := time.Now()
 	if checkFunc(node) {
 		end := time.Now()
-		r.onConnected(node, uint64(end.Sub(start).Milliseconds()))
+		r.onConnected(node, uint64(end.Sub(start).Milliseconds()), epoch)
 	} else {
-		r.onDisconnected(node)
+		r.onDisconnected(node, epoch)
 	}
 }
 
-func (r *Retryer) onConnected(node string, rt uint64) {
+func (r *Retryer) onConnected(node string, rt uint64, epoch uint64) {
 	r.mtx.Lock()
+	if epoch != r.epoch {
+		// (the rule changed while the check function was running)
+		r.mtx.Unlock()
+		return
+	}
 	delete(r.counts, node)
 	r.mtx.Unlock()
 	recycler := getRecyclerOfResource(r.resource)
@@ -138,8 +182,12 @@ func (r *Retryer) onConnected(node string, rt uint64) {
 	}
 }
 
-func (r *Retryer) onDisconnected(node string) {
+func (r *Retryer) onDisconnected(node string, epoch uint64) {
 	r.mtx.Lock()
+	if epoch != r.epoch {
+		r.mtx.Unlock()
+		return
+	}
 	r.counts[node]++
 	count := r.counts[node]
 	if count > r.maxAttempts {
@@ -149,6 +197,6 @@ func (r *Retryer) onDisconnected(node string) {
 	r.mtx.Unlock()
 	// Fix bugs: When multiple active checks still do not recover, it is necessary to delete node from r.counts.
 	time.AfterFunc(interval*time.Duration(count), func() {
-		r.connectNode(node)
+		r.connectNode(node, epoch)
 	})
 }
